@@ -25,7 +25,7 @@ RULE = (
     "arrays is computed and {label: value} must equal the eager mapping (order-free). Non-trivial = the call reached graph "
     "construction with a dask input (returned a lazy result)."
 )
-BUDGET = {"quick": 130, "thorough": 2000}
+BUDGET = {"quick": 260, "thorough": 2000}
 ASSUMPTIONS = ["non-object label dtypes only (property text)"]
 
 
